@@ -230,6 +230,32 @@ claim("C23", "S2",
       "C20's rules for inherited parts; has_value is a flag (C08 decides no truthiness on value).",
       "ast path enumeration + dominance rules")
 
+claim("C40", "S2",
+      "using_: resource factory once, guarded, and every return path of subscribe (incl. the failure path) holds the "
+      "resource's disposable (must-hold per return); finally_action_: the action runs only in the returned dispose hook "
+      "(finally after subscription.dispose()) or on the re-raising failure path; do_finally: every invocation dominated by "
+      "`not was_invoked` with the flag set on the same path, hook held by the returned composite, per-subscription flag; "
+      "do_* handlers forward exactly their own notification unchanged on every non-raising path (path enumeration).",
+      "Disposable at-most-once is C25, terminal => dispose is C02. A finally-action that itself raises is outside the claim.",
+      "ast must-hold ownership per return path + guard dominance + path typestate of handlers")
+
+claim("C41", "S1",
+      "Necessary single-shot clauses by path enumeration of each bridge callback: from_future (result => value then "
+      "completion; exception/cancellation => error only; unsubscribe cancels), from_callback (one value then completion "
+      "with and without mapper; raising mapper => error), to_async/start (result via AsyncSubject then completion; "
+      "exception => error), to_future/run (last value iff has_value flag, else SequenceContainsNoElementsError; error => "
+      "exception), plus the registration/delegation wiring.",
+      "Emitted values and real asyncio/thread behaviour are not decided; futures behave as documented.",
+      "ast path enumeration (typestate) + wiring checks")
+
+claim("C42", "S2",
+      "Wrap coverage (every schedule* passes self._wrap(action) with the other arguments in role), handler semantics by "
+      "analysis of the except block (handler(ex) once, re-raise iff falsy, normal end otherwise), recursive wrapper given "
+      "to the action, periodic: failed latch before the handler and dominating later ticks, swallow path disposes the "
+      "periodic subscription.",
+      "The wrapped scheduler runs what it is given; the user handler's own behaviour is not constrained.",
+      "ast who-passes-what (forwarding) + handler-block analysis")
+
 na("C15", "arithmetic over run-time timestamps (queue ordering by timestamp + duetime, 'exactly d later'); no structural "
           "clause that is both necessary and robust beyond ownership/guarding/falsy rules already decided under "
           "C02/C03/C08/C09, whose scope includes these files")
